@@ -523,7 +523,39 @@ func (w *World) truthyMethodUncached() *FuncInfo {
 			}
 		}
 	}
-	return nil
+	// the same predicate as a plain function of the evaluator's package (it never
+	// needed its receiver): unexported, (interface) bool, called by the if evaluator
+	ife := w.evalMethod("IfExpression")
+	if ife == nil || ife.Decl.Body == nil {
+		return nil
+	}
+	var found *FuncInfo
+	ast.Inspect(ife.Decl.Body, func(n ast.Node) bool {
+		call, ok := n.(*ast.CallExpr)
+		if !ok || found != nil {
+			return found == nil
+		}
+		id, ok := call.Fun.(*ast.Ident)
+		if !ok {
+			return true
+		}
+		obj, ok := ife.Pkg.TypesInfo.Uses[id].(*types.Func)
+		if !ok || obj.Exported() || obj.Pkg() != ife.Obj.Pkg() {
+			return true
+		}
+		sig := obj.Type().(*types.Signature)
+		if sig.Recv() != nil || sig.Params().Len() != 1 || sig.Results().Len() != 1 {
+			return true
+		}
+		if _, ok := sig.Params().At(0).Type().Underlying().(*types.Interface); !ok {
+			return true
+		}
+		if b, ok := sig.Results().At(0).Type().(*types.Basic); ok && b.Kind() == types.Bool {
+			found = w.FuncOf(obj)
+		}
+		return true
+	})
+	return found
 }
 
 // topLevelEval: the evaluator method with no parameters returning (string, error).
